@@ -26,6 +26,8 @@ from refcodec import server_frame
 
 TRUSTED = ['correspondence: harness/props/c10.py (generators, canonical printing) + harness/world.py',
            'oracle: hashlib.sha1 + base64 of CPython, the RFC 7230 / RFC 7692 readers in harness/props/c10.py',
+           'layer 2b: harness/props/c10.py real_reconf, AnsweringEnv, server_answer (a scripted server that reads the request bytes the socket accepted with the RFC 7230 reader and answers them); '
+           'the answered connections are judged by the oracle only (the model runs the requests: `http req` with the custom headers in force)',
            'urllib.parse.urlparse (CPython) is outside the model: the model starts from the components it returns']
 ASSUMPTIONS = ['the SHA-1/base64 of the model (Model/Sha1.lean, Handshake.acceptFor) is the function hashlib/base64 compute: test vectors by kernel '
                'evaluation (C10_Digest.sha1_abc, sha1_empty, sha1_two_blocks, accept_rfc6455_example) + differential test on every run (layer 4); '
@@ -840,10 +842,242 @@ def judge_request(res, item, raw, fresh_draws, used_keys, what_input):
 
 
 # =============================================================================================
-# layer 3: whole connections
+# layer 2b: the application RECONFIGURES the object between connection attempts (add_header() before the first connect()
+# and between two connect()s), and a server that ANSWERS THE REQUEST IT ACTUALLY RECEIVED
 
 AFTER = server_frame(1, b'AFTER')
 AFTER_TOK = 'E:text:' + b'AFTER'.hex()
+
+RECONF_ENDS = ['served', 'served', 'rejected', 'mid-header', 'mid-frame', 'mid-fragment', 'server-close', 'connfail', 'wfail', 'abandon', 'app-close']
+# endings after which the whole reply header block has reached the client
+RECONF_REPLY_DELIVERED = ('served', 'mid-frame', 'mid-fragment', 'server-close', 'abandon', 'app-close')
+
+
+def server_answer(raw, plan):
+    """what a plain HTTP server library does with the request bytes `raw` it received: it reads them with the RFC 7230 reader
+       above and takes the FIRST Sec-WebSocket-Key field (the way http.server / email.message `get` do); it computes the accept
+       value from THAT key (RFC 6455 4.2.2) and selects the first protocol the request offers.
+       returns (reply header block, info dict)"""
+    try:
+        _m, _t, _v, hdrs = read_request(raw)
+    except Malformed as e:
+        return b'HTTP/1.1 400 Bad Request\r\nContent-Length: 0\r\n\r\n', dict(status=400, why=str(e))
+    keys = [v for n, v in hdrs if n.lower() == b'sec-websocket-key']
+    if not keys:
+        return b'HTTP/1.1 400 Bad Request\r\nContent-Length: 0\r\n\r\n', dict(status=400, why='no key')
+    if plan['end'] == 'rejected':
+        return b'HTTP/1.1 401 Unauthorized\r\nContent-Length: 0\r\n\r\n', dict(status=401, nkeys=len(keys))
+    # (a subprotocol name is an RFC 7230 token, RFC 6455 4.1 item 10: an offered name with other octets is not selectable)
+    offers = [p.strip(b' \t') for n, v in hdrs if n.lower() == b'sec-websocket-protocol' for p in v.split(b',') if TOKEN.fullmatch(p.strip(b' \t'))]
+    proto = offers[0] if (offers and plan.get('proto')) else None
+    reply = (b'HTTP/1.1 101 Switching Protocols\r\nUpgrade: websocket\r\nConnection: Upgrade\r\nSec-WebSocket-Accept: ' + rfc_accept(keys[0]) + CRLF +
+             (b'Sec-WebSocket-Protocol: ' + proto + CRLF if proto is not None else b'') + CRLF)
+    return reply, dict(status=101, nkeys=len(keys), key=keys[0].decode('latin-1'), proto=None if proto is None else proto.hex())
+
+
+class AnsweringEnv(list):
+    """an environment script (harness/world.py `World.env`) that is written when the client first waits for data - i.e. after the
+       request went out - by `server_answer` from the bytes the socket really accepted"""
+
+    def __init__(self, w, plan):
+        list.__init__(self)
+        self.w, self.plan, self.made = w, plan, False
+
+    def __bool__(self):
+        if not self.made:
+            self.made = True
+            from refcodec import close_payload
+            reply, info = server_answer(b''.join(self.w.raw), self.plan)
+            self.w.answer = info
+            end = self.plan['end']
+            if info['status'] != 101:
+                steps = reads([reply]) + [('wait', 0, ('eof',))]
+            elif end == 'mid-header':
+                steps = reads([reply[:40]]) + [('wait', 0, ('eof',))]
+            elif end == 'mid-frame':
+                steps = reads([reply + AFTER + server_frame(1, b'hello world')[:5]]) + [('wait', 0, ('sockerr',))]
+            elif end == 'mid-fragment':
+                steps = reads([reply + AFTER + server_frame(1, b'he', fin=0)]) + [('wait', 0, ('eof',))]
+            elif end == 'server-close':
+                steps = reads([reply + AFTER + server_frame(8, close_payload(1000, b''))]) + [('wait', 0, ('eof',))]
+            else:
+                steps = reads([reply + AFTER]) + [('wait', 0, ('eof',))]
+            self.extend(steps)
+        return len(self) > 0
+
+
+def reconf_draw(seed, phase, j, n):
+    return hashlib.sha256(b'reconf %d %d %d' % (seed, phase, j)).digest()[:n] if n <= 32 else bytes(n)
+
+
+def real_reconf(item):
+    """item: dict(url, agent|None, protocols, compress, seed, headers[[hex,hex]] (added before the first connect()),
+                  rounds=[dict(add=[[hex,hex]...] (add_header() calls made right before THIS connect()), end=<RECONF_ENDS>, proto=bool)],
+                  k0 = number of the first round (the entropy source serves connect number k0+i the same bytes whatever
+                       object makes it: a fresh object's only connect can be given the draw of a used object's k-th)).
+       returns dict(traces, draws=[(n, hex, phase)], answers=[server_answer info | None], default_agent)"""
+    import os as _os
+    import lomond.session as _session, lomond.events as _events, lomond.frame as _frame
+    from lomond.websocket import WebSocket
+    draws = []
+    phase = [-1]
+
+    def fake_urandom(n):
+        j = sum(1 for d in draws if d[2] == phase[0])
+        b = reconf_draw(item['seed'], phase[0], j, n)
+        draws.append((n, b.hex(), phase[0]))
+        return b
+    cur = {}
+
+    class TimeShim:
+        @staticmethod
+        def time():
+            return cur['world'].clock.t
+
+    def next_key():
+        w = cur['world']
+        k = w.key_ctr
+        w.key_ctr += 1
+        return world.test_key(k)
+    saved = (_session.time, _events.time, _frame.make_masking_key, _os.urandom)
+    traces, answers = [], []
+    try:
+        _session.time = TimeShim
+        _events.time = TimeShim
+        _frame.make_masking_key = next_key
+        _os.urandom = fake_urandom
+        ws = WebSocket(item['url'], proxies={}, protocols=item['protocols'] or None, agent=item['agent'], compress=item['compress'])
+        for h, v in item['headers']:
+            ws.add_header(bytes.fromhex(h), bytes.fromhex(v))
+        t_next = 1000.0
+        one_cls = world.make_session_class(cur)
+        for i, rd in enumerate(item['rounds']):
+            for h, v in rd.get('add', []):
+                ws.add_header(bytes.fromhex(h), bytes.fromhex(v))
+            phase[0] = item.get('k0', 0) + i
+            end = rd['end']
+            rx = {2: [('abandon', 'close')]} if end == 'abandon' else ({2: [('close', 1000, ('b', b'bye'))]} if end == 'app-close' else {})
+            sc = Scenario([], rx, prate=0, url=item['url'], conn='sockfail' if end == 'connfail' else 'ok', wfail={0} if end == 'wfail' else ())
+            w = world.World(sc, t_next)
+            w.canon_write = world._canon_write_factory(w)
+            w.answer = None
+            w.env = AnsweringEnv(w, rd)
+            cur['world'] = w
+            traces.append(world._run_one(ws, sc, w, None, one_cls))
+            answers.append(w.answer)
+            t_next = w.clock.t + 3.0
+        default_agent = None
+        if item['agent'] is None:
+            from lomond import constants
+            default_agent = constants.USER_AGENT
+    finally:
+        _session.time, _events.time, _frame.make_masking_key, _os.urandom = saved
+    return dict(traces=traces, draws=draws, answers=answers, default_agent=default_agent)
+
+
+def gen_reconf(rng, seed):
+    """a client (gen_client) whose application adds custom headers before the first connect() and / or between connects, and
+       makes 2-4 connection attempts on the object; how each attempt ends is drawn from RECONF_ENDS"""
+    item = gen_client(rng, seed)
+    del item['connects']
+    rounds = []
+    for i in range(rng.choice([2, 2, 3, 3, 4])):
+        nadd = 0 if i == 0 else rng.choice([0, 1, 1, 1, 2])
+        rounds.append(dict(add=[[h.hex(), v.hex()] for h, v in (rng.choice(HDRS) for _ in range(nadd))], end=rng.choice(RECONF_ENDS), proto=rng.random() < 0.7))
+    if rng.random() < 0.35:
+        item['headers'] = []          # the first custom header of the object's life is added after its first connection
+    item['rounds'] = rounds
+    item['k0'] = 0
+    return item
+
+
+def reconf_headers(item, k):
+    """the custom headers in force at connect number k: everything add_header() was given up to then"""
+    return list(item['headers']) + [hv for rd in item['rounds'][:k + 1] for hv in rd.get('add', [])]
+
+
+def explore_reconf(res, rng, quick, model_ok, seed, keys_seen):
+    n = 60 if quick else 1200
+    items = [gen_reconf(rng, seed * 100003 + 50000 + i) for i in range(n)]
+    outs = runner.parallel_map('props.c10', 'real_reconf', items, chunk=20)
+    lines, backrefs = [], []
+    for item, out in zip(items, outs):
+        if '__crash__' in out:
+            res.crashes.append(out)
+            continue
+        used = set()
+        u = split_url(item['url'])
+        judged = not u['v6'] and all(ord(c) < 128 for c in item['url'])
+        agent = item['agent'] if item['agent'] is not None else out['default_agent']
+        for k, (trace, rd, ans) in enumerate(zip(out['traces'], item['rounds'], out['answers'])):
+            tk = toks(trace)
+            evs = [t for t in tk if t.startswith('E:')]
+            names = [e.split(':')[1] for e in evs]
+            wr = [t for t in tk if t.startswith('W:')]
+            inp = dict(kind='reconf', item=item, connect=k)
+            eff = dict(item, headers=reconf_headers(item, k))
+            res.case(('reconf', json.dumps(item, sort_keys=True), k), nontrivial=k > 0)
+            res.count('reconf:connect#%d' % k)
+            res.count('reconf:after:%s' % (item['rounds'][k - 1]['end'] if k else 'construction'))
+            res.count('reconf:headers-added-%s' % ('before-first-connect' if k == 0 and item['headers'] else ('between-connects' if k and rd['add'] else 'not-here')))
+            res.traces_validated += 1
+            if rd['end'] in ('connfail', 'wfail'):
+                if rd['end'] == 'connfail' and wr:
+                    res.failures.append(dict(cls='request-not-written', what='a request was written although the connection could not be made', input=inp, observed=trace[:300]))
+                continue
+            if not wr:
+                res.failures.append(dict(cls='request-not-written', what='connect() wrote no request', input=inp, observed=trace[:300]))
+                continue
+            raw = bytes.fromhex(wr[0][2:])
+            fresh = [d[1] for d in out['draws'] if d[2] == k and d[0] == 16]
+            nf = len(res.failures)
+            key = judge_request(res, eff, raw, fresh, used, inp) if judged else None
+            if key:
+                used.add(key)
+                keys_seen.add(key)
+            if judged and len(res.failures) == nf:
+                # the CURRENT custom headers, each exactly as often as add_header() was called with it
+                try:
+                    hdrs = read_request(raw)[3]
+                except Malformed:
+                    hdrs = []
+                custom = [(bytes.fromhex(h), bytes.fromhex(x)) for h, x in eff['headers']]
+                for c in set(custom):
+                    if hdrs.count(c) != custom.count(c):
+                        res.failures.append(dict(cls='request-custom-headers', what='custom header %r: %r was added %d time(s) but is sent %d time(s) by connect #%d' % (c[0], c[1], custom.count(c), hdrs.count(c), k + 1),
+                                                 input=inp, observed=raw[:600].decode('latin-1')))
+                        break
+            if len(fresh) != 1:
+                res.failures.append(dict(cls='key-not-fresh', what='connect() made %d 16-byte draws (expected exactly one)' % len(fresh), input=inp))
+            lines.append(req_model_line(eff, fresh[0] if fresh else '', agent))
+            backrefs.append((item, k, raw))
+            # the server answered the request it received: 101, Upgrade: websocket, the digest of the (one) key in that request
+            if ans and ans['status'] == 101 and ans['nkeys'] == 1 and rd['end'] in RECONF_REPLY_DELIVERED:
+                res.count('reconf:answered-101')
+                want_p = '-' if ans['proto'] is None else 'p' + ans['proto']
+                rdy = [e for e in evs if e.startswith('E:ready')]
+                if len(rdy) != 1 or 'rejected' in names or any(e.startswith('E:protocol_error') for e in evs):
+                    res.failures.append(dict(cls='rejected-good-reply', what='connect #%d: the server answered the request it received with a correct upgrade reply (accept = digest of the key in that request), '
+                                             'but the client did not yield exactly one Ready' % (k + 1), input=inp, observed=[e[:160] for e in evs[:8]], expected='ready'))
+                elif rdy[0].split(':')[2] != want_p:
+                    res.failures.append(dict(cls='ready-reports', what='Ready.protocol is %s, the reply said %s' % (rdy[0].split(':')[2], want_p), input=inp))
+                elif rd['end'] in ('served', 'mid-frame', 'mid-fragment', 'server-close') and AFTER_TOK not in evs:
+                    res.failures.append(dict(cls='ready-then-messages', what='frame following the header block was not delivered after Ready', input=inp, observed=[e[:160] for e in evs[:8]]))
+            elif ans and ans['status'] != 101:
+                res.count('reconf:answered-%d' % ans['status'])
+                if 'ready' in names or any(e.split(':')[1] in MSG_EVENTS for e in evs) or names.count('rejected') != 1:
+                    res.failures.append(dict(cls='not-ready-consequences', what='reply with status %d: expected exactly one Rejected, no Ready, no message events' % ans['status'], input=inp,
+                                             observed=[e[:160] for e in evs[:8]], expected='rejected'))
+    if model_ok and lines:
+        mo = runner.model_run(lines)
+        for (item, k, raw), line, m in zip(backrefs, lines, mo):
+            want = raw.hex() + ' spec:' + show_spec_request(raw)
+            if m != want:
+                res.diffs.append(dict(input=line[:2000], real=want[-1500:], model=m[-1500:], item=item, connect=k))
+
+
+# =============================================================================================
+# layer 3: whole connections
 
 
 def conn_scenario(rng, tier, i, variant, mode=None):
@@ -1099,6 +1333,10 @@ def explore(res, tier, seed, model_ok=True):
                 'forced at least once in layers 1 and 3; plus a malformed stream (23 anomaly kinds) and byte-level mutations (insert/delete/replace/duplicate with CR LF TAB VT FF FS US : , ; = " _ + - 0 1 0x80 0xff NUL) -- run on Response+on_response and on the model; '
                 '(2) clients: URL shapes (ws/wss, default/explicit/zero port, userinfo, path, query, fragment) x agent x offered protocols x custom headers x compress, '
                 '1-4 connects on one object with a logged os.urandom -- request actually written vs model vs RFC 7230 reader; '
+                '(2b) the same clients with add_header() calls before the first connect() and/or BETWEEN 2-4 connect()s on one object, every attempt ending in one of 10 ways '
+                '(served, rejected, mid-header, mid-frame, mid-fragment, server close, connect failure, request write failure, abandoned, closed by the application): every request '
+                'judged against the custom headers in force at that moment (each exactly as often as added) vs model (`http req` with the current header list); a scripted server reads the '
+                'request it really received (first Sec-WebSocket-Key field, first offered protocol) and answers it: Ready with that protocol must follow; '
                 '(3) whole connections: the same replies x segmentation (whole, random, around the terminator, byte-wise) x trailing frames x header blocks of exactly '
                 '16383..16386 and more bytes, terminated or not; non-trivial = anything but the canonical plain good reply; distinct by wire bytes + segmentation') % (len(WRONG_ACCEPT), len(DUP_KINDS), len(FOLD_KINDS))
     strict = detect_strict()
@@ -1270,6 +1508,9 @@ def explore(res, tier, seed, model_ok=True):
                 res.diffs.append(dict(input=line[:2000], real=want[-1500:], model=m[-1500:], item=item, connect=k))
     res.samples += lines[:1]
 
+    # ---------------- layer 2b: add_header() between connection attempts; the server answers the request it received ----
+    explore_reconf(res, rng, quick, model_ok, seed, keys_seen)
+
     # ---------------- layer 3 ----------------------------------------------------------------
     n3 = 260 if quick else 4000
     scs, metas3 = [], []
@@ -1351,6 +1592,15 @@ def replay(rp):
         out = real_requests(inp['item'])
         for t in out['traces']:
             print(t)
+        return 0
+    if isinstance(inp, dict) and inp.get('kind') == 'reconf':
+        out = real_reconf(inp['item'])
+        for k, (t, a) in enumerate(zip(out['traces'], out['answers'])):
+            print('connect #%d: custom headers in force: %r' % (k + 1, [(bytes.fromhex(h), bytes.fromhex(v)) for h, v in reconf_headers(inp['item'], k)]))
+            w = [x for x in toks(t) if x.startswith('W:')]
+            print('  request written: %r' % (bytes.fromhex(w[0][2:]) if w else None))
+            print('  server answered: %s' % (a,))
+            print('  trace: %s' % t[-500:])
         return 0
     if isinstance(inp, dict) and inp.get('kind') == 'conn':
         sc = coreutil.scenario_from_json(inp['scenario'])
